@@ -36,7 +36,7 @@ RECVS = ["fresh", "lazyrows", "lazycols+2", "lazycols-1", "lazychain", "ufunc", 
 FLOOR_TAGS = ["recv:" + r_ for r_ in RECVS] + ["mask-as-list", "r:int", "r:slice+1", "r:slice+k", "r:slice-", "r:list", "r:array", "r:mask", "r:ell",
               "c:none", "c:int+", "c:int-", "c:slice+1", "c:slice+k", "c:slice-",
               "must-refuse", "sel-has-empty-row", "ellipsis-padded", "e-first", "e-last", "e-mid", "e-consec", "allempty", "norows"]
-FLOOR_MONITORS = ["c02:model-compare", "c02:refusal", "c02:arguments-unchanged"]
+FLOOR_MONITORS = ["c02:model-compare", "c02:refusal", "c02:arguments-unchanged", "c02:after-refusal"]
 N_RANDOM = {"quick": 12000, "thorough": 400000}
 
 
@@ -178,6 +178,15 @@ def run(case):
         if out.ok:
             return violated("index %s addresses a non-existing row/column and must be refused, but returned %s" % (short(idx), short(got)),
                             tags, got=got, expected="refusal")
+        # a refusal leaves no trace: the array reads as before and answers a legal index right afterwards
+        CTX.tick("c02:after-refusal")
+        after = attempt(peek, ra)
+        if not after.ok or after.value != pyrows:
+            return violated("after the refused index %s the array reads %s, was %s" % (short(idx), repr(after) if not after.ok else short(after.value, 200), short(pyrows, 200)), tags + ["changed-by-refused-index"])
+        if len(lens):
+            r0 = attempt(lambda: np.asarray(ra[0]).tolist())
+            if not r0.ok or r0.value != pyrows[0]:
+                return violated("after the refused index %s, ra[0] gives %s, expected %s" % (short(idx), repr(r0) if not r0.ok else r0.value, pyrows[0]), tags + ["unusable-after-refusal"])
         return held(tags, nontrivial)
     CTX.tick("c02:model-compare", ncell > 0)
     if not out.ok:
